@@ -36,6 +36,7 @@ type pkg struct {
 	consts map[string]ast.Expr
 	files  []*ast.File
 	fileOf map[ast.Node]*ast.File
+	valid  map[string]bool // types with a Validate() error method
 }
 
 type typeDecl struct {
@@ -52,6 +53,17 @@ type gen struct {
 	defName map[string]string // pkgpath.Type -> Coq identifier
 	stack   map[string]bool
 	warn    []string
+	vals    map[string][]string // named type -> types with Validate() reachable from it (incl. itself)
+	vstack  []map[string]bool
+}
+
+func (g *gen) vadd(names ...string) {
+	if len(g.vstack) == 0 {
+		return
+	}
+	for _, n := range names {
+		g.vstack[len(g.vstack)-1][n] = true
+	}
 }
 
 func (g *gen) warnf(f string, a ...interface{}) {
@@ -92,7 +104,7 @@ func (g *gen) load(path string) *pkg {
 		g.pkgs[path] = nil
 		return nil
 	}
-	p := &pkg{path: path, dir: dir, types: map[string]*typeDecl{}, consts: map[string]ast.Expr{}}
+	p := &pkg{path: path, dir: dir, types: map[string]*typeDecl{}, consts: map[string]ast.Expr{}, valid: map[string]bool{}}
 	var names []string
 	for _, e := range ents {
 		n := e.Name()
@@ -114,6 +126,16 @@ func (g *gen) load(path string) *pkg {
 		p.name = f.Name.Name
 		p.files = append(p.files, f)
 		for _, d := range f.Decls {
+			if fd, ok := d.(*ast.FuncDecl); ok && fd.Recv != nil && fd.Name.Name == "Validate" && len(fd.Recv.List) == 1 &&
+				(fd.Type.Params == nil || len(fd.Type.Params.List) == 0) {
+				rt := fd.Recv.List[0].Type
+				if st, ok := rt.(*ast.StarExpr); ok {
+					rt = st.X
+				}
+				if id, ok := rt.(*ast.Ident); ok {
+					p.valid[id.Name] = true
+				}
+			}
 			gd, ok := d.(*ast.GenDecl)
 			if !ok {
 				continue
@@ -313,11 +335,16 @@ func (g *gen) named(p *pkg, name string) string {
 		return "TAny"
 	}
 	st, isStruct := td.spec.Type.(*ast.StructType)
+	short := p.path[strings.LastIndex(p.path, "/")+1:] + "." + name
 	if !isStruct {
+		if p.valid[name] {
+			g.vadd(short)
+		}
 		return g.ty(p, td.file, td.spec.Type)
 	}
 	key := p.path + "." + name
 	if n, ok := g.defName[key]; ok {
+		g.vadd(g.vals[key]...)
 		return n
 	}
 	if g.stack[key] {
@@ -325,7 +352,20 @@ func (g *gen) named(p *pkg, name string) string {
 		return "TAny"
 	}
 	g.stack[key] = true
+	g.vstack = append(g.vstack, map[string]bool{})
+	if p.valid[name] {
+		g.vadd(short)
+	}
 	body := g.structTy(p, td.file, st, key)
+	top := g.vstack[len(g.vstack)-1]
+	g.vstack = g.vstack[:len(g.vstack)-1]
+	var vs []string
+	for v := range top {
+		vs = append(vs, v)
+	}
+	sort.Strings(vs)
+	g.vals[key] = vs
+	g.vadd(vs...)
 	delete(g.stack, key)
 	rel := strings.TrimPrefix(strings.TrimPrefix(p.path, g.module), "/pkg/")
 	n := "T_" + ident(rel) + "_" + ident(name)
@@ -400,6 +440,9 @@ func (g *gen) fields(p *pkg, f *ast.File, st *ast.StructType) []field {
 					continue
 				}
 				if est, ok := std.spec.Type.(*ast.StructType); ok {
+					if q.valid[std.spec.Name.Name] {
+						g.vadd(q.path[strings.LastIndex(q.path, "/")+1:] + "." + std.spec.Name.Name)
+					}
 					out = append(out, g.fields(q, std.file, est)...)
 				}
 				continue
@@ -494,6 +537,7 @@ func (g *gen) structTy(p *pkg, f *ast.File, st *ast.StructType, key string) stri
 
 type kindOut struct {
 	name, cat, gotype, ty string
+	validators            []string
 	defaults              []string
 	results               []string
 }
@@ -553,6 +597,7 @@ func (g *gen) kindFromLit(p *pkg, f *ast.File, cat, name string, lit *ast.Compos
 	}
 	k := &kindOut{name: name, cat: cat, gotype: p.path[strings.LastIndex(p.path, "/")+1:] + "." + tn, results: results}
 	k.ty = g.named(p, tn)
+	k.validators = g.vals[p.path+"."+tn]
 	// yaml names of the (flattened) fields
 	td := p.types[tn]
 	yname := map[string]string{}
@@ -724,7 +769,7 @@ func main() {
 	repo := flag.String("repo", "/repo", "easegress source tree")
 	outp := flag.String("out", "", "output file (coq/gen/GenSchema.v); stdout when empty")
 	flag.Parse()
-	g := &gen{repo: *repo, fset: token.NewFileSet(), pkgs: map[string]*pkg{}, defName: map[string]string{}, stack: map[string]bool{}}
+	g := &gen{repo: *repo, fset: token.NewFileSet(), pkgs: map[string]*pkg{}, defName: map[string]string{}, stack: map[string]bool{}, vals: map[string][]string{}}
 	mod, err := os.ReadFile(filepath.Join(*repo, "go.mod"))
 	if err != nil {
 		fmt.Fprintln(os.Stderr, "specgen:", err)
@@ -782,6 +827,19 @@ func main() {
 	for _, k := range kinds {
 		fmt.Fprintf(&b, "Definition K_%s : gty := %s.\n", ident(strings.TrimPrefix(k.name, "@")), k.ty)
 	}
+	b.WriteString("\n(** types with a Validate() method reachable from the spec type of each kind (found by traverseGo) *)\n")
+	b.WriteString("Definition kind_validators : list (string * list string) := [\n")
+	for i, k := range kinds {
+		var vs []string
+		for _, v := range k.validators {
+			vs = append(vs, cq(v))
+		}
+		fmt.Fprintf(&b, "  (%s, [%s])", cq(k.name), strings.Join(vs, "; "))
+		if i < len(kinds)-1 {
+			b.WriteString(";\n")
+		}
+	}
+	b.WriteString("\n].\n")
 	if len(g.warn) > 0 {
 		b.WriteString("\n(* specgen notes:\n")
 		seen := map[string]bool{}
